@@ -25,6 +25,23 @@ Proof.
   - rewrite <- sum_scal_l. apply sum_ext; intros i Hi. rewrite (H i Hi). ring.
 Qed.
 
+(* conversely: an eigenpair (lam, v) of A B gives the eigenpair (lam, B v) of B A, and B v = 0 forces lam v = 0:
+   every non-zero eigenvalue of A B is an eigenvalue of the reduced matrix B A *)
+Theorem eig_back (N k : nat) (A B : M R) (v : nat -> R) (lam : R) :
+  (forall x, (x < N)%nat -> sum N (fun y => mmul k A B x y * v y) = lam * v x) ->
+  (forall i, sum k (fun j => mmul N B A i j * sum N (fun y => B j y * v y)) = lam * sum N (fun y => B i y * v y)) /\
+  ((forall j, (j < k)%nat -> sum N (fun y => B j y * v y) = 0) -> forall x, (x < N)%nat -> lam * v x = 0).
+Proof.
+  intros H. split.
+  - exact (eig_AB_BA k N B A v lam H).
+  - intros HB x Hx. rewrite <- (H x Hx). unfold mmul.
+    transitivity (sum k (fun j => A x j * sum N (fun y => B j y * v y))).
+    + transitivity (sum N (fun y => sum k (fun j => A x j * (B j y * v y)))).
+      * apply sum_ext; intros y _. rewrite <- sum_scal_r. apply sum_ext; intros j _. ring.
+      * rewrite sum_swap. apply sum_ext; intros j _. rewrite <- sum_scal_l. reflexivity.
+    + apply sum_zero'. intros j Hj. rewrite (HB j Hj). ring.
+Qed.
+
 (* reduced matrix = B A when Q has orthonormal columns (real data: transposes) *)
 Theorem reduced_is_BA (N r k nx : nat) (Q Um Vm Cy : M R) (sinv : nat -> R) p q :
   (forall a b, (a < r)%nat -> (b < r)%nat -> sum N (fun x => Q x a * Q x b) = delta a b) ->
